@@ -98,8 +98,13 @@ def gen():
     tr = Tr({args[1]: "child"})
     out.append("Definition needs_brackets (self_conn : conn) (%s : option conn) : bool :=\n  %s.\n" % (args[1], tr.body(f.body)))
     # the getattr(side, "operator", None) idiom of ArithmeticExpression.get_sql is what opattr models
-    src = inspect.getsource(ArithmeticExpression.get_sql)
-    need('getattr(side, "operator", None)' in src, "ArithmeticExpression.get_sql no longer reads the operator attribute via getattr")
+    # (judged on the syntax tree, so that the spelling - one comprehension over both sides, two assignments, a helper local - does not matter:
+    #  every read of an OPERAND's operator is getattr(<operand>, "operator", None); only self.operator is read directly)
+    g = fn_ast(ArithmeticExpression.get_sql)
+    reads = [n for n in ast.walk(g) if isinstance(n, ast.Call) and isinstance(n.func, ast.Name) and n.func.id == "getattr" and len(n.args) == 3
+             and isinstance(n.args[1], ast.Constant) and n.args[1].value == "operator" and isinstance(n.args[2], ast.Constant) and n.args[2].value is None]
+    direct = [n for n in ast.walk(g) if isinstance(n, ast.Attribute) and n.attr == "operator" and not (isinstance(n.value, ast.Name) and n.value.id == "self")]
+    need(reads and not direct, "ArithmeticExpression.get_sql no longer reads the operands' operator attribute via getattr(.., 'operator', None)")
     return "".join(out)
 
 
